@@ -136,9 +136,19 @@ verus! {
 // ---- state construction (C03.2)
 //@lift feos-core/src/state/mod.rs State::new_nvt_unchecked
 //@end
+//@ltype D => real
+//@lstruct feos-core/src/state/mod.rs StateHD
+//@lift feos-core/src/state/mod.rs StateHD::new name=statehd_new
+//@end
 //@lextern validate_moles(L_Eos, Option<RArr>) -> Result<RArr, LErr>
 //@lextern validate(real, real, RArr) -> Result<(), LErr>
 //@lift feos-core/src/state/mod.rs State::new_nvt
+//@end
+//@lift feos-core/src/state/mod.rs State::new_pure
+//@end
+//@lextern new_npt(L_Eos, real, real, RArr, L_DensityInitialization) -> Result<L_State, LErr>
+//@lenum feos-core/src/state/mod.rs DensityInitialization
+//@lift feos-core/src/state/mod.rs State::new_npvx
 //@end
 // =====================================================================================
 // Contracts.  `g(s, k)` abbreviates get_or_compute_derivative_residual: by unit cache (C01.3) it is
@@ -306,6 +316,41 @@ pub proof fn contract_c03_2_new_nvt(eos: L_Eos, temperature: real, volume: real,
         (validate_moles(eos, Some(moles)) is Err || validate(temperature, volume, moles) is Err)
             ==> new_nvt(eos, temperature, volume, moles) is Err,
 {}
+
+/// C01.1: the dual-number state handed to the models carries exactly T, V, N and the derived partial densities
+/// and mole fractions
+pub proof fn contract_c01_1_statehd_new(t: real, v: real, moles: RArr, i: int)
+    ensures ({
+        let s = statehd_new(t, v, moles);
+        s.temperature == t && s.volume == v && s.moles == moles
+        && s.partial_density.len == moles.len && (s.partial_density.at)(i) == (moles.at)(i) / v
+        && s.molefracs.len == moles.len && (s.molefracs.at)(i) == (moles.at)(i) / rsum(moles.len, moles.at)
+    })
+{}
+/// new_pure: one mole of the pure substance at the given temperature and density
+pub proof fn contract_c03_2_new_pure(eos: L_Eos, t: real, rho: real, i: int) by(nonlinear_arith)
+    requires new_pure(eos, t, rho) is Ok, rho != 0real, i == 0
+    ensures ({
+        let s = new_pure(eos, t, rho)->Ok_0;
+        s.temperature == t && s.moles.len == 1 && (s.moles.at)(i) == 1real && s.volume * rho == 1real
+    })
+{}
+/// new_npvx: the returned state has exactly the given T and V; its amounts are the partial densities of the
+/// (T, p, x) state times V (the composition of that state)
+pub proof fn contract_c03_2_new_npvx(eos: L_Eos, t: real, p: real, v: real, x: RArr, di: L_DensityInitialization, i: int)
+    requires new_npvx(eos, t, p, v, x, di) is Ok
+    ensures ({
+        let inner = new_npt(eos, t, p, RArr { len: x.len, at: |k: int| (x.at)(k) * 1real }, di);
+        let s = new_npvx(eos, t, p, v, x, di)->Ok_0;
+        inner is Ok && s.temperature == t && s.volume == v
+        && (s.moles.at)(i) == (inner->Ok_0.partial_density.at)(i) * v
+    })
+{
+    let m_in = RArr { len: x.len, at: |i__: int| (x.at)(i__) * 1real };
+    let m_spec = RArr { len: x.len, at: |k: int| (x.at)(k) * 1real };
+    assert(m_in.at =~= m_spec.at);
+    assert(m_in == m_spec);
+}
 
 // ---- C10.3: the ideal-gas terms are the derivatives of p_id = N R T / V
 pub proof fn contract_c10_3_ideal_gas_terms(s: L_State, i: int, j: int) by(nonlinear_arith)
